@@ -694,7 +694,14 @@ def version_dispatch(ctx):
             if nd is not None and nd not in [r[0] for r in reads]:
                 reads.append((nd, x))
     if not pcs:
-        ctx.violated("C20.5", cr, "commands.create never parses the configuration file", "parse_config_file call")
+        # not called by create itself: a helper that create calls may do it (the order relative to the version dispatch is then
+        # decided across two functions, which this rule does not follow)
+        pf = [f_ for f_ in ctx.prog.functions.values() if f_.name == "parse_config_file"]
+        via = [f_ for f_ in C.reach(ctx, [cr]) if f_ is not cr and any(isinstance(x, ast.Call) and any(t in pf for t in C.targets_of(ctx, f_, x)) for x in own_nodes(f_.node))] if pf else []
+        if via:
+            ctx.undecided("C20.5", cr, "the configuration file is parsed in %s, which commands.create reaches through a call; that this happens before the version is looked at was not followed" % via[0].qualname, "parse_config_file call")
+        else:
+            ctx.violated("C20.5", cr, "commands.create never parses the configuration file", "parse_config_file call")
     elif not reads:
         ctx.undecided("C20.5", cr, "version dispatch of commands.create not found")
     else:
